@@ -54,6 +54,23 @@ Proof.
   - revert Hnd. clear. induction c as [|y c IH]; simpl; intro H; [exact H|]. inversion H; subst. apply IH. exact H3.
 Qed.
 
+Lemma nat_list_eqb_eq (a : list nat) : forall b, list_eqb Nat.eqb a b = true -> a = b.
+Proof.
+  induction a as [|x a IH]; intros [|y b] H; simpl in *; try reflexivity; try discriminate.
+  apply andb_true_iff in H. destruct H as [H1 H2]. apply Nat.eqb_eq in H1. apply IH in H2. congruence.
+Qed.
+
+(** the rows of the grid are rings: the first [k] rows are the core, the others the shell *)
+Definition rings (grid : list (list nat)) (c shell : list nat) : Prop :=
+  exists k, k <= length grid /\ concat (firstn k grid) = c /\ concat (skipn k grid) = shell.
+
+Lemma rings_ok_spec grid c shell : rings_ok grid c shell = true -> rings grid c shell.
+Proof.
+  unfold rings_ok, rings. intro H. apply existsb_exists in H. destruct H as [k [Hk H]].
+  apply andb_true_iff in H. destruct H as [H1 H2]. apply nat_list_eqb_eq in H1, H2.
+  exists k. split; [apply in_seq in Hk; lia|]. split; assumption.
+Qed.
+
 (** Prop reading of the sketch predicate *)
 Definition sketch_spec (e : sketch_entry) : Prop :=
   let '(_, (quads, outer, grid, core, shell)) := e in
@@ -61,16 +78,22 @@ Definition sketch_spec (e : sketch_entry) : Prop :=
   lists_range nf (opt_list core ++ shell) /\
   (forall f, In f shell -> has_outer_edge outer (quad_of quads f) = true) /\
   (forall f, In f (opt_list core) -> has_outer_point outer (quad_of quads f) = false) /\
-  lists_range nf (concat grid).
+  lists_range nf (concat grid) /\
+  rings grid (opt_list core) shell.
 
 Lemma sketch_ok_spec e : sketch_ok e = true -> sketch_spec e.
 Proof.
   destruct e as [name [[[[quads outer] grid] core] shell]]. unfold sketch_ok, sketch_spec.
-  cbv zeta. intro H. repeat (apply andb_true_iff in H; destruct H as [H ?]).
+  cbv zeta. intro H.
+  apply andb_true_iff in H. destruct H as [H Hrings].
+  apply andb_true_iff in H. destruct H as [H Hgrid].
+  apply andb_true_iff in H. destruct H as [H Hcore].
+  apply andb_true_iff in H. destruct H as [H Hshell].
+  apply andb_true_iff in H. destruct H as [_ Hperm].
   split; [apply perm_of_range_spec; assumption|].
-  split; [intros f Hf; rewrite forallb_forall in H2; apply H2; exact Hf|].
-  split; [intros f Hf; rewrite forallb_forall in H1; apply negb_true_iff; apply H1; exact Hf|].
-  apply perm_of_range_spec; assumption.
+  split; [intros f Hf; rewrite forallb_forall in Hshell; apply Hshell; exact Hf|].
+  split; [intros f Hf; rewrite forallb_forall in Hcore; apply negb_true_iff; apply Hcore; exact Hf|].
+  split; [apply perm_of_range_spec; assumption | apply rings_ok_spec; assumption].
 Qed.
 
 Definition lofted_spec (e : lofted_entry) : Prop :=
@@ -81,19 +104,26 @@ Definition lofted_spec (e : lofted_entry) : Prop :=
   (forall o, In o shell -> has_outer_edge outer (quad_of quads (nth o bottom 0)) = true) /\
   (forall o, In o c -> has_outer_point outer (quad_of quads (nth o bottom 0)) = false) /\
   (length joined = n /\ forall b, In b joined -> b = true) /\
-  list_eqb (list_eqb Nat.eqb) (map (map (fun o => nth o bottom 0)) grid) sgrid = true.
+  list_eqb (list_eqb Nat.eqb) (map (map (fun o => nth o bottom 0)) grid) sgrid = true /\
+  rings grid c shell.
 
 Lemma lofted_ok_spec e : lofted_ok e = true -> lofted_spec e.
 Proof.
   destruct e as [name [[[[[[[quads outer] bottom] joined] grid] sgrid] core] shell]].
   unfold lofted_ok, lofted_spec. destruct core as [c|]; [|discriminate].
-  cbv zeta. intro H. repeat (apply andb_true_iff in H; destruct H as [H ?]).
+  cbv zeta. intro H.
+  apply andb_true_iff in H. destruct H as [H Hrings].
+  apply andb_true_iff in H. destruct H as [H Hgrid].
+  apply andb_true_iff in H. destruct H as [H Hjoined].
+  apply andb_true_iff in H. destruct H as [H Hlen].
+  apply andb_true_iff in H. destruct H as [H Hcore].
+  apply andb_true_iff in H. destruct H as [Hperm Hshell].
   exists c. split; [reflexivity|].
-  split; [apply perm_of_range_spec; unfold perm_of_range; rewrite H, H6, H5; reflexivity|].
-  split; [intros o Ho; rewrite forallb_forall in H4; apply H4; exact Ho|].
-  split; [intros o Ho; rewrite forallb_forall in H3; apply negb_true_iff; apply H3; exact Ho|].
-  split; [|assumption].
-  split; [apply Nat.eqb_eq; assumption|]. intros b Hb. rewrite forallb_forall in H1. apply H1. exact Hb.
+  split; [apply perm_of_range_spec; exact Hperm|].
+  split; [intros o Ho; rewrite forallb_forall in Hshell; apply Hshell; exact Ho|].
+  split; [intros o Ho; rewrite forallb_forall in Hcore; apply negb_true_iff; apply Hcore; exact Ho|].
+  split; [split; [apply Nat.eqb_eq; assumption|]; intros b Hb; rewrite forallb_forall in Hjoined; apply Hjoined; exact Hb|].
+  split; [assumption | apply rings_ok_spec; assumption].
 Qed.
 
 Definition solid_spec (e : solid_entry) : Prop :=
@@ -102,16 +132,21 @@ Definition solid_spec (e : solid_entry) : Prop :=
   lists_range n (c ++ shell) /\
   (forall o, In o shell -> nth o touch false = true) /\
   (forall o, In o c -> nth o anyp true = false) /\
-  lists_range n (concat g).
+  lists_range n (concat g) /\
+  rings g c shell.
 
 Lemma solid_ok_spec e : solid_ok e = true -> solid_spec e.
 Proof.
   destruct e as [name [[[[[n touch] anyp] grid] core] shell]].
   unfold solid_ok, solid_spec. destruct core as [c|]; [|discriminate]. destruct grid as [g|]; [|discriminate].
-  cbv zeta. intro H. repeat (apply andb_true_iff in H; destruct H as [H ?]).
+  cbv zeta. intro H.
+  apply andb_true_iff in H. destruct H as [H Hrings].
+  apply andb_true_iff in H. destruct H as [H Hgrid].
+  apply andb_true_iff in H. destruct H as [H Hcore].
+  apply andb_true_iff in H. destruct H as [Hperm Hshell].
   exists c, g. split; [reflexivity|]. split; [reflexivity|].
-  split; [apply perm_of_range_spec; unfold perm_of_range; rewrite H, H4, H3; reflexivity|].
-  split; [intros o Ho; rewrite forallb_forall in H2; apply H2; exact Ho|].
-  split; [intros o Ho; rewrite forallb_forall in H1; apply negb_true_iff; apply H1; exact Ho|].
-  apply perm_of_range_spec; assumption.
+  split; [apply perm_of_range_spec; exact Hperm|].
+  split; [intros o Ho; rewrite forallb_forall in Hshell; apply Hshell; exact Ho|].
+  split; [intros o Ho; rewrite forallb_forall in Hcore; apply negb_true_iff; apply Hcore; exact Ho|].
+  split; [apply perm_of_range_spec; assumption | apply rings_ok_spec; assumption].
 Qed.
